@@ -114,7 +114,11 @@ def run(ctx, idx):
     ctx.rule("C12.k", "Acceptance does not depend on the order of the commands: nothing consults the command table for a referenced result while the program is being loaded (from_source / add_command) - a reference is resolved when the model is run (C01.h's reading; a load-time existence check refuses every well-formed model whose consumer is written before its producer).")
     from .C01 import rule_h as _load_time_lookups
 
-    _load_time_lookups(ctx, idx, A, rule="C12.k")
+    _soft12 = []
+    try:
+        _load_time_lookups(ctx, idx, A, rule="C12.k")
+    except AnalysisError as ex_:
+        _soft12.append(ex_)  # the gates below still get their verdict (a vanished duplicate check is C12.a's business)
     ctx.rule("C12.i", "A well-formed model is accepted wherever it is run from: a relative file name is refused only when the program has NO working directory (None); the empty string is the current directory (what the command-line tool passes for a command file given without a directory) - C20.e's reading of PathParameter.clean.")
     from .C20 import no_working_dir_means_none
 
@@ -479,6 +483,37 @@ def run(ctx, idx):
     ctx.rule("C12.g", "Every argument has the declared kind: each parameter class rejects raw kinds outside its documented domain with ParameterNotValid (kind-narrowing over all choice sequences; table in rules/C20.py).")
     from .C20 import kind_table
     kind_table(ctx, idx, "C12.g")
+    # what a command class declares is read from THAT class: a memo stored on the class object and looked for with hasattr / getattr is
+    # found through the MRO, so a subclass with other declared inputs (CvtToFuzzyCat(NormalizeCat) ...) is validated against its
+    # parent's declaration once the parent has been used in the process
+    ctx.rule("C12.m", "Declarations are read per class: Command code stores nothing on the class object behind a hasattr / getattr test (such a memo is inherited by subclasses that declare other inputs; `name in cls.__dict__` is the per-class test).")
+    n_m = 0
+    for f_ in idx.funcs:
+        if f_.module.name != "mpilot.commands" or getattr(f_, "cls", None) is None:
+            continue
+        src_ = getattr(f_, "node_orig", None) or f_.node
+        selfn = src_.args.args[0].arg if src_.args.args else None
+        cls_names = {selfn} if f_.name in ("__new__",) or any(K.src(d_) in ("classmethod",) for d_ in src_.decorator_list) else set()
+        for st_ in ast.walk(src_):
+            if isinstance(st_, ast.Assign) and len(st_.targets) == 1 and isinstance(st_.targets[0], ast.Name) and K.src(st_.value) in ("type(%s)" % selfn, "%s.__class__" % selfn):
+                cls_names.add(st_.targets[0].id)
+        for st_ in ast.walk(src_):
+            if not isinstance(st_, ast.If):
+                continue
+            stores_ = [t_ for b_ in st_.body for x_ in ast.walk(b_) if isinstance(x_, ast.Assign) for t_ in x_.targets if isinstance(t_, ast.Attribute)
+                       and (K.src(t_.value) in cls_names or K.src(t_.value) in ("type(%s)" % selfn, "%s.__class__" % selfn))] + \
+                      [x_ for b_ in st_.body for x_ in ast.walk(b_) if isinstance(x_, ast.Call) and K.src(x_.func) == "setattr" and x_.args and (K.src(x_.args[0]) in cls_names or K.src(x_.args[0]) in ("type(%s)" % selfn, "%s.__class__" % selfn))]
+            if not stores_:
+                continue
+            n_m += 1
+            tsrc = K.src(st_.test)
+            inherited = ("hasattr(" in tsrc or "getattr(" in tsrc) and "__dict__" not in tsrc and "vars(" not in tsrc
+            ctx.ob("C12.m", "%s::per-class-memo" % f_.key, K.rel(f_), st_.lineno, not inherited, "the memo is looked for in the class's own namespace" if not inherited else
+                   "`%s` stores on the class object what `%s` looks for through the MRO: a subclass that declares other inputs finds its PARENT's memo once the parent has been used, and a well-formed command of the subclass is then refused (MissingParameters / NoSuchParameter) in the middle of a run, after other commands have executed" % (K.src(stores_[0])[:50], tsrc[:50]))
+    if not n_m:
+        ctx.hold("C12.m", "mpilot/commands.py::no-class-memo", "mpilot/commands.py", 1, "no conditional store on a command class object", nontrivial=False)
+    if _soft12:
+        raise _soft12[0]
 
 
 def thorough(ctx, idx):
